@@ -1,7 +1,8 @@
 import CpModel.SessionFile
 /-!
-  C13 (b) — `FileSession`: mutual exclusion across threads and processes, relative to the
-  `FileLock` contract written down in `CpModel/SessionFile.lean`.
+  C13 (b) — `FileSession`: mutual exclusion of requests (threads or processes) AND the expiry
+  sweep, at the granularity of single file operations, relative to the `FileLock` contract written
+  down in `CpModel/SessionFile.lean`.
 -/
 namespace CpProofs.C13
 open CpModel.SessionFile
@@ -13,48 +14,76 @@ namespace File
 @[simp] theorem setThr_flock (s : St) (i : Nat) (t : Thr) : (setThr s i t).flock = s.flock := rfl
 @[simp] theorem setThr_version (s : St) (i : Nat) (t : Thr) : (setThr s i t).version = s.version := rfl
 @[simp] theorem setThr_lost (s : St) (i : Nat) (t : Thr) : (setThr s i t).lost = s.lost := rfl
+@[simp] theorem setThr_file (s : St) (i : Nat) (t : Thr) : (setThr s i t).file = s.file := rfl
+@[simp] theorem setThr_sw (s : St) (i : Nat) (t : Thr) : (setThr s i t).sw = s.sw := rfl
+@[simp] theorem setSw_sw (s : St) (w : Sweeper) : (setSw s w).sw = w := rfl
+@[simp] theorem setSw_thr (s : St) (w : Sweeper) : (setSw s w).thr = s.thr := rfl
+@[simp] theorem setSw_flock (s : St) (w : Sweeper) : (setSw s w).flock = s.flock := rfl
+@[simp] theorem setSw_version (s : St) (w : Sweeper) : (setSw s w).version = s.version := rfl
+@[simp] theorem setSw_lost (s : St) (w : Sweeper) : (setSw s w).lost = s.lost := rfl
+@[simp] theorem setSw_file (s : St) (w : Sweeper) : (setSw s w).file = s.file := rfl
 
 structure Inv (s : St) : Prop where
-  f1 : ∀ i, inCS (s.thr i).pc = true → s.flock = some i
-  f2 : ∀ i, s.flock = some i → inCS (s.thr i).pc = true
-  f3 : ∀ i, ((s.thr i).pc = .write ∨ (s.thr i).pc = .save) → (s.thr i).seen = s.version
-  f4 : s.lost = false
+  r1 : ∀ i, inCS (s.thr i).pc = true → s.flock = some (.req i)
+  r2 : ∀ i, s.flock = some (.req i) → inCS (s.thr i).pc = true
+  w1 : swInCS s.sw.pc = true → s.flock = some .sweep
+  w2 : s.flock = some .sweep → swInCS s.sw.pc = true
+  o1 : ∀ d, s.flock ≠ some (.tick d)
+  o2 : ∀ i, s.flock ≠ some (.expire i)
+  v1 : ∀ i, ((s.thr i).pc = .trunc ∨ (s.thr i).pc = .dump) → (s.thr i).seen = s.version
+  v2 : s.sw.pc = .unlink → s.sw.seen = s.version ∧ s.file ≠ .absent
+  e1 : s.sw.err = true → s.sw.pc = .rel ∨ s.sw.pc = .crashed
+  e2 : s.sw.err = false ∧ s.sw.pc ≠ .crashed
+  l1 : s.lost = false
+
+macro "file_close" : tactic =>
+  `(tactic| (refine ⟨?_, ?_, ?_, ?_, ?_, ?_, ?_, ?_, ?_, ?_, ?_⟩ <;>
+      simp only [setThr_thr, setThr_flock, setThr_version, setThr_lost, setThr_file, setThr_sw,
+        setSw_sw, setSw_thr, setSw_flock, setSw_version, setSw_lost, setSw_file] <;>
+      grind [inCS, swInCS]))
+
+theorem inv_stepReq (s : St) (i : Nat) (h : Inv s) : Inv (stepReq s i) := by
+  obtain ⟨r1, r2, w1, w2, o1, o2, v1, v2, e1, e2, l1⟩ := h
+  unfold stepReq
+  cases hpc : (s.thr i).pc <;> simp only [hpc]
+  case init => file_close
+  case acq => split <;> first | file_close | exact ⟨r1, r2, w1, w2, o1, o2, v1, v2, e1, e2, l1⟩
+  case openr => split <;> file_close
+  case load => file_close
+  case trunc => file_close
+  case dump => file_close
+  case rel => file_close
+  all_goals exact ⟨r1, r2, w1, w2, o1, o2, v1, v2, e1, e2, l1⟩
+
+theorem inv_stepSweep (s : St) (h : Inv s) : Inv (stepSweep s) := by
+  obtain ⟨r1, r2, w1, w2, o1, o2, v1, v2, e1, e2, l1⟩ := h
+  unfold stepSweep
+  cases hpc : s.sw.pc <;> simp only [hpc]
+  case list => split <;> file_close
+  case acq => split <;> first | file_close | exact ⟨r1, r2, w1, w2, o1, o2, v1, v2, e1, e2, l1⟩
+  case openr => split <;> file_close
+  case load => split <;> (try split) <;> file_close
+  case unlink => split <;> file_close
+  case rel => file_close
+  case crashed => exact ⟨r1, r2, w1, w2, o1, o2, v1, v2, e1, e2, l1⟩
 
 theorem inv_step (s : St) (a : Actor) (h : Inv s) : Inv (step s a) := by
-  obtain ⟨f1, f2, f3, f4⟩ := h
   cases a with
+  | req i => exact inv_stepReq s i h
+  | sweep => exact inv_stepSweep s h
+  | tick d =>
+    obtain ⟨r1, r2, w1, w2, o1, o2, v1, v2, e1, e2, l1⟩ := h
+    exact ⟨r1, r2, w1, w2, o1, o2, v1, v2, e1, e2, l1⟩
   | expire i =>
+    obtain ⟨r1, r2, w1, w2, o1, o2, v1, v2, e1, e2, l1⟩ := h
     unfold step
     simp only []
     split
-    · rename_i hc
-      refine ⟨?_, ?_, ?_, ?_⟩ <;> simp only [setThr_thr, setThr_flock, setThr_version, setThr_lost] <;>
-        grind [inCS]
-    · exact ⟨f1, f2, f3, f4⟩
-  | run i =>
-    unfold step
-    cases hpc : (s.thr i).pc <;> simp only [hpc]
-    case try_ =>
-      split
-      · refine ⟨?_, ?_, ?_, ?_⟩ <;> simp only [setThr_thr, setThr_flock, setThr_version, setThr_lost] <;>
-          grind [inCS]
-      · exact ⟨f1, f2, f3, f4⟩
-    case load =>
-      refine ⟨?_, ?_, ?_, ?_⟩ <;> simp only [setThr_thr, setThr_flock, setThr_version, setThr_lost] <;>
-        grind [inCS]
-    case write =>
-      split <;> (refine ⟨?_, ?_, ?_, ?_⟩ <;>
-        simp only [setThr_thr, setThr_flock, setThr_version, setThr_lost] <;> grind [inCS])
-    case save =>
-      refine ⟨?_, ?_, ?_, ?_⟩ <;> simp only [setThr_thr, setThr_flock, setThr_version, setThr_lost] <;>
-        grind [inCS]
-    case rel =>
-      refine ⟨?_, ?_, ?_, ?_⟩ <;> simp only [setThr_thr, setThr_flock, setThr_version, setThr_lost] <;>
-        grind [inCS]
-    all_goals exact ⟨f1, f2, f3, f4⟩
+    · file_close
+    · exact ⟨r1, r2, w1, w2, o1, o2, v1, v2, e1, e2, l1⟩
 
-theorem inv_init (d : Nat) (sw to : Nat → Bool) : Inv (init d sw to) := by
-  refine ⟨?_, ?_, ?_, ?_⟩ <;> simp [init, inCS]
+theorem inv_init (f : FileC) (to : Nat → Bool) : Inv (init f to) := by
+  refine ⟨?_, ?_, ?_, ?_, ?_, ?_, ?_, ?_, ?_, ?_, ?_⟩ <;> simp [init, inCS, swInCS]
 
 theorem inv_run (s : St) (sched : List Actor) (h : Inv s) : Inv (run s sched) := by
   induction sched generalizing s with
@@ -63,35 +92,68 @@ theorem inv_run (s : St) (sched : List Actor) (h : Inv s) : Inv (run s sched) :=
 
 end File
 
-/-- **C13_file_mutex.**  For any number of request threads / processes and clean_up passes, any
-    schedule and any placement of lock-timeout expiries: at most one actor is between
-    `acquire_lock` and `release_lock`; no read-modify-write of the session file is lost; an actor
-    whose `LockChecker` expired never enters; the lock is free whenever nobody is inside. -/
-theorem C13_file_mutex (d : Nat) (sw to : Nat → Bool) (sched : List Actor) :
-    let s := run (init d sw to) sched
+/-- **C13_file_mutex.**  For any number of request threads / processes, the clean_up sweep, the clock,
+    any schedule and any placement of lock-timeout expiries, from every initial file state:
+    at most one request is between `acquire_lock` and `release_lock`, and none while the sweep is
+    between its acquire and its release; no dump is based on an overtaken load and the sweep never
+    unlinks a file that was written after its locked check; the sweep never raises; the lock is
+    free whenever nobody is inside. -/
+theorem C13_file_mutex (f : FileC) (to : Nat → Bool) (sched : List Actor) :
+    let s := run (init f to) sched
     (∀ i j, inCS (s.thr i).pc = true → inCS (s.thr j).pc = true → i = j) ∧
-    s.lost = false ∧
-    ((∀ i, inCS (s.thr i).pc = false) → s.flock = none) := by
+    (swInCS s.sw.pc = true → ∀ i, inCS (s.thr i).pc = false) ∧
+    s.lost = false ∧ s.sw.pc ≠ .crashed ∧
+    ((∀ i, inCS (s.thr i).pc = false) → swInCS s.sw.pc = false → s.flock = none) := by
   intro s
-  have h : File.Inv s := File.inv_run _ sched (File.inv_init d sw to)
-  refine ⟨?_, h.f4, ?_⟩
+  have h : File.Inv s := File.inv_run _ sched (File.inv_init f to)
+  refine ⟨?_, ?_, h.l1, h.e2.2, ?_⟩
   · intro i j hi hj
-    have a := h.f1 i hi
-    have b := h.f1 j hj
+    have a := h.r1 i hi
+    have b := h.r1 j hj
     rw [a] at b
+    injection b with b
     injection b
-  · intro hall
+  · intro hs i
+    have a := h.w1 hs
+    cases hc : inCS (s.thr i).pc with
+    | false => rfl
+    | true =>
+      have b := h.r1 i hc
+      rw [a] at b
+      injection b with b
+      cases b
+  · intro hall hsw
     cases hf : s.flock with
     | none => rfl
-    | some i =>
-      have := h.f2 i hf
-      rw [hall i] at this
-      cases this
+    | some a =>
+      cases a with
+      | req i => have := h.r2 i hf; rw [hall i] at this; cases this
+      | sweep => have := h.w2 hf; rw [hsw] at this; cases this
+      | tick d => exact absurd hf (h.o1 d)
+      | expire i => exact absurd hf (h.o2 i)
 
-/-- non-vacuity: two requests and a clean_up pass really contend, one request times out -/
+/-- **C13_file_ops_locked.**  Every destructive or mutating file operation (truncate, dump, unlink)
+    is executed by the actor that holds the session's file lock. -/
+theorem C13_file_ops_locked (f : FileC) (to : Nat → Bool) (sched : List Actor) :
+    let s := run (init f to) sched
+    (∀ i, ((s.thr i).pc = .trunc ∨ (s.thr i).pc = .dump) → s.flock = some (.req i)) ∧
+    (s.sw.pc = .unlink → s.flock = some .sweep) := by
+  intro s
+  have h : File.Inv s := File.inv_run _ sched (File.inv_init f to)
+  constructor
+  · intro i hp
+    apply h.r1 i
+    rcases hp with hp | hp <;> simp [hp, inCS]
+  · intro hp
+    apply h.w1
+    simp [hp, swInCS]
+
+/-- non-vacuity: two requests and the sweep really contend on an expired session; request 1 has a
+    lock timeout that fires -/
 example :
-    let s := run (init 5 (fun i => i == 2) (fun i => i == 1))
-      [.run 0, .run 1, .run 2, .expire 1, .run 0, .run 0, .run 0, .run 0, .run 2, .run 2]
-    (s.thr 0).pc = .done ∧ (s.thr 1).pc = .failed ∧ (s.thr 2).pc = .write ∧ s.data = 6 := by decide
+    let s := run (init (.data 5 0) (fun i => i == 1))
+      [.tick 3, .req 0, .req 1, .sweep, .sweep, .req 0, .expire 1, .sweep, .sweep, .sweep, .sweep, .req 0, .req 0]
+    (s.thr 1).pc = .failed ∧ s.file = .absent ∧ s.sw.pc = .list ∧ (s.thr 0).pc = .trunc ∧
+    s.flock = some (.req 0) := by decide
 
 end CpProofs.C13
